@@ -525,8 +525,8 @@ def _market_step_tie():
     return translated.market_step_tie()
 
 
-STEP_NOTE = (" Capstone (coq/translated/MarketStepProofs.v, re-checked on every run against the four generated methods together): the step function assembled from the GENERATED "
-             "_update_time, _add_order, _cancel_order and _execute_orders (the walk of a round staying the hand model) equals the model's step_rec on every state satisfying "
+STEP_NOTE = (" Capstone (coq/translated/MarketStepProofs.v, re-checked on every run against the five generated units together): the step function assembled from the GENERATED "
+             "_update_time, _add_order, _cancel_order, _execute_orders and the generated walk of a round (pre-loop statements and loop body of _execution, iterated with the model's fuel) equals the model's step_rec on every state satisfying "
              "the book invariant, for every operation, and therefore along every sequence of operations (`every_history_of_the_source_is_a_history_of_the_model`: same "
              "states, same records) - the Level-M theorems of this property are theorems about histories of the source's own statements.")
 for _p in ("C04", "C06", "C08"):
@@ -714,6 +714,9 @@ WALK_NOTE = (" Translator tie (harness/py2coq_walk.py; loop state in coq/theorie
 for _p in ("C01", "C03"):
     CLAIMS[_p]["ties"] += (_walk_tie,)
     CLAIMS[_p]["text"] += WALK_NOTE
+for _p in ("C01", "C03"):
+    CLAIMS[_p]["ties"] += (_market_step_tie,)
+    CLAIMS[_p]["text"] += STEP_NOTE
 
 
 def _hook_sweep_c13(seed, tier, cov):
